@@ -3,7 +3,8 @@ messages: tuple-hash tags + item orders, fixed-width `#[repr(C)]` info layouts (
 field order, widths), HPKE `wrap_info` order, which value is used as HPKE info and as AEAD AD."""
 import re
 from extract import read, strip_comments, Fail
-from crypto_c34 import lean_bytes, fn_body, hash_call, map_items, advisory, advisory_comment, lean_bool, ADVISORY, helper_calls
+from crypto_c34 import (lean_bytes, fn_body, hash_call, map_items, advisory, advisory_comment, lean_bool, ADVISORY,
+                        helper_calls, scan_lets, resolve, lit_bytes, _call_in)
 
 ID = 32  # every custom_id is 32 bytes
 
@@ -87,11 +88,22 @@ def gen():
     if "letinfo=ctx.to_bytes()?;letkey=self.derive_key(&info)?;Ok(CS::Aead::new(&key).open(dst,nonce,ciphertext,&info)?)" not in ob:
         advisory(f"{rel}: GroupKey::open is not literally key = derive_key(info), AD = info")
     db = fn_body(src, "derive_key", rel)
-    dbn = re.sub(r"\s+", "", db)
-    m1 = re.search(r'CS::labeled_extract\(b"([^"]*)",&\[\],b"([^"]*)",iter::once::<&\[u8\]>\(&self\.seed\),\)', dbn)
-    m2 = re.search(r'CS::labeled_expand\(b"([^"]*)",&prk,b"([^"]*)",\[info\]\)', dbn)
-    if not m1 or not m2:
-        raise Fail(f"{rel}: GroupKey::derive_key changed shape")
+    dl = scan_lets(db)
+    ex = _call_in(db, re.escape("CS::labeled_extract"))
+    xp = _call_in(db, re.escape("CS::labeled_expand"))
+    if ex is None or xp is None or len(ex) < 4 or len(xp) < 4:
+        raise Fail(f"{rel}: GroupKey::derive_key: labeled_extract / labeled_expand calls not found")
+    e_dom, e_lab = lit_bytes(ex[0], dl), lit_bytes(ex[2], dl)
+    x_dom, x_lab = lit_bytes(xp[0], dl), lit_bytes(xp[2], dl)
+    if None in (e_dom, e_lab, x_dom, x_lab):
+        raise Fail(f"{rel}: GroupKey::derive_key: domains / labels are not (and do not resolve to) byte-string literals")
+    if "self.seed" not in resolve(ex[3], dl) or re.sub(r"\s+", "", resolve(xp[3], dl)) != "[info]":
+        advisory(f"{rel}: GroupKey::derive_key: ikm is not literally the seed / expand info is not literally [info]")
+
+    class _M:  # keep the shape the code below expects
+        def __init__(self, a, b): self.a, self.b = a, b
+        def group(self, i): return (self.a if i == 1 else self.b).decode()
+    m1, m2 = _M(e_dom, e_lab), _M(x_dom, x_lab)
     L += [f"/-- tag of `Context::to_bytes` in {rel}: `{tag.decode()}` -/",
           f"def groupKeyTag : List UInt8 := {lean_bytes(tag)}", "",
           "inductive GkField where | label | parent | author",
